@@ -122,3 +122,10 @@ def c15_string_default_text(s) -> bool:
 def c15_string_default(exp) -> bool:
     d = exp.get("default")
     return isinstance(d, str) and c15_string_default_text(d)
+
+
+def c03_member_descriptions_dropped(kind) -> bool:
+    """KF C03-member-descriptions-dropped: print_ast drops the descriptions of field definitions, input value definitions
+    (arguments, input fields) and enum value definitions.  tests/test_lang/test_ast_printer.py::test_schema_kitchen_sink pins
+    the output without them, so printing them cannot be added without editing a test."""
+    return ENABLED and kind in ("FieldDefinition", "InputValueDefinition", "EnumValueDefinition")
